@@ -49,7 +49,11 @@ _TreeSet_update(BTree *self, PyObject *seq)
         if (v == NULL)
         {
             if (PyErr_Occurred())
+            {
+                /* the iterable raised: that is a failure of ours, too */
+                ind = -1;
                 goto err;
+            }
             else
                 break;
         }
